@@ -912,6 +912,14 @@ func (g *fgen) event() *genEvent {
 		}
 	}
 	e.Fields, e.fM = g.fields(0, 6)
+	if r.IntN(120) == 0 {
+		// an event whose line exceeds the default buffer cap (10 KB): pooled formatting state that is dropped or
+		// swapped for oversized lines is then exercised by the events that follow in the same process
+		big := strings.Repeat("big-"+strconv.Itoa(r.IntN(1000))+" ", 1500+r.IntN(4000))
+		e.Fields = append(e.Fields[:len(e.Fields):len(e.Fields)], log.String("bigfield", big))
+		e.fM = append(e.fM[:len(e.fM):len(e.fM)], xmember{"bigfield", xs(big)})
+		g.f("oversized-line")
+	}
 	if len(e.Fields) == 0 && len(e.CtxFields) == 0 {
 		g.f("no-fields")
 	}
